@@ -184,6 +184,11 @@ def run(ctx):
 
     # drift: the deterministic choices of the library (never an alarm)
     soft = [tr for tr in traces if tr["kind"] in STRICT_KINDS or ctx.replay_case]
+    if quick and not ctx.replay_case:  # drift only: the quick tier judges every fourth range trace (deterministic)
+        rng = [tr for tr in soft if tr["kind"] == "range"]
+        keep = {tr["tid"] for tr in rng[::4]}
+        soft = [tr for tr in soft if tr["kind"] != "range" or tr["tid"] in keep]
+        ctx.extra["strict_range_traces"] = "%d of %d" % (len(keep), len(rng))
     hard_bad = {tr["tid"] for tr, _, _ in rejects}
     drift = ctx.validate("Trace_TtlRange", "Trace_TtlRange_strict.cfg", [tr for tr in soft if tr["tid"] not in hard_bad], shards=8)
     ctx.traces -= len(soft)  # the same traces, judged a second time
